@@ -1279,12 +1279,16 @@ Vdetach(int32 vkey /* IN: vgroup key */)
             }
         }
 
-        /* write out vgroup */
-        if (Hputelement(vg->f, DFTAG_VG, vg->oref, Vgbuf, vgpacksize) == FAIL)
+        /* write out vgroup; a failure is reported to the caller, but only
+           after the detach has been completed (the vgroup stays marked) */
+        if (Hputelement(vg->f, DFTAG_VG, vg->oref, Vgbuf, vgpacksize) == FAIL) {
             HERROR(DFE_WRITEERROR);
-
-        vg->marked = 0;
-        vg->new_vg = 0;
+            ret_value = FAIL;
+        }
+        else {
+            vg->marked = 0;
+            vg->new_vg = 0;
+        }
     }
 
     /* Free the old-style attribute list and reset associated fields */
